@@ -13,7 +13,8 @@ theorem leadInfo_cases (b0 : Nat) :
     (0xC2 ≤ b0 ∧ b0 ≤ 0xF4 ∧ 2 ≤ (leadInfo b0).1 ∧ (leadInfo b0).1 ≤ 4 ∧ 0x80 ≤ (leadInfo b0).2.1 ∧ (leadInfo b0).2.2 ≤ 0xBF ∧
       ((leadInfo b0).1 = 2 → b0 ≤ 0xDF) ∧
       ((leadInfo b0).1 = 3 → 0xE0 ≤ b0 ∧ b0 ≤ 0xEF ∧ (b0 = 0xE0 → 0xA0 ≤ (leadInfo b0).2.1)) ∧
-      ((leadInfo b0).1 = 4 → 0xF0 ≤ b0 ∧ (b0 = 0xF0 → 0x90 ≤ (leadInfo b0).2.1))) := by
+      ((leadInfo b0).1 = 4 → 0xF0 ≤ b0 ∧ (b0 = 0xF0 → 0x90 ≤ (leadInfo b0).2.1) ∧
+        (b0 = 0xF4 → (leadInfo b0).2.2 ≤ 0x8F))) := by
   unfold leadInfo
   repeat' split
   all_goals simp_all
@@ -23,7 +24,7 @@ theorem leadInfo_cases (b0 : Nat) :
 `2 ≤ w ≤ 4` bytes all of which are `≥ 0x80`, with a value `≥ 0x80`. -/
 theorem decodeRune_cases (b0 : UInt8) (rest : List UInt8) (h : 0x80 ≤ b0.toNat) :
     decodeRune (b0 :: rest) = (runeError, 1) ∨
-    (∃ r w, decodeRune (b0 :: rest) = (r, w) ∧ 2 ≤ w ∧ w ≤ rest.length + 1 ∧ 0x80 ≤ r ∧
+    (∃ r w, decodeRune (b0 :: rest) = (r, w) ∧ 2 ≤ w ∧ w ≤ rest.length + 1 ∧ 0x80 ≤ r ∧ r < 0x110000 ∧
       ∀ x ∈ (b0 :: rest).take w, 0x80 ≤ x.toNat) := by
   have hl := leadInfo_cases b0.toNat
   unfold decodeRune
@@ -46,7 +47,7 @@ theorem decodeRune_cases (b0 : UInt8) (rest : List UInt8) (h : 0x80 ≤ b0.toNat
           by_cases hs2 : sz ≤ 2
           · right
             simp only [hs2, if_true]
-            refine ⟨_, _, rfl, by omega, by simp, ?_, ?_⟩
+            refine ⟨_, _, rfl, by omega, by simp, ?_, by omega, ?_⟩
             · have : 2 ≤ b0.toNat % 32 := by omega
               omega
             · intro x hx
@@ -63,7 +64,7 @@ theorem decodeRune_cases (b0 : UInt8) (rest : List UInt8) (h : 0x80 ≤ b0.toNat
                 by_cases hs3 : sz ≤ 3
                 · right
                   simp only [hs3, if_true]
-                  refine ⟨_, _, rfl, by omega, by simp, ?_, ?_⟩
+                  refine ⟨_, _, rfl, by omega, by simp, ?_, by omega, ?_⟩
                   · have hsz3 : sz = 3 := by omega
                     have := h7 hsz3
                     by_cases he0 : b0.toNat = 0xE0
@@ -84,14 +85,22 @@ theorem decodeRune_cases (b0 : UInt8) (rest : List UInt8) (h : 0x80 ≤ b0.toNat
                     · right
                       simp only [hc3, Bool.not_true, Bool.false_eq_true, if_false]
                       have hc3' : 0x80 ≤ b3.toNat := by simp [isCont] at hc3; omega
-                      refine ⟨_, _, rfl, by omega, by simp, ?_, ?_⟩
+                      refine ⟨_, _, rfl, by omega, by simp, ?_, ?_, ?_⟩
                       · have hsz4 : sz = 4 := by omega
                         have := h8 hsz4
                         by_cases hf0 : b0.toNat = 0xF0
-                        · have := this.2 hf0
+                        · have := this.2.1 hf0
                           have : 16 ≤ b1.toNat % 64 := by omega
                           omega
                         · have : 1 ≤ b0.toNat % 8 := by omega
+                          omega
+                      · have hsz4 : sz = 4 := by omega
+                        have := h8 hsz4
+                        by_cases hf4 : b0.toNat = 0xF4
+                        · have := this.2.2 hf4
+                          have : b1.toNat % 64 ≤ 15 := by omega
+                          omega
+                        · have : b0.toNat % 8 ≤ 3 := by omega
                           omega
                       · intro x hx
                         simp at hx
@@ -135,7 +144,7 @@ theorem readChar_spec (sb : Bool) (b : UInt8) (rest : List UInt8) :
     simp only [Bool.false_eq_true, if_false]
     by_cases h : b.toNat ≥ 0x80
     · simp only [h, if_true]
-      rcases decodeRune_cases b rest h with he | ⟨r, w, he, h2, h3, h4, h5⟩
+      rcases decodeRune_cases b rest h with he | ⟨r, w, he, h2, h3, h4, _, h5⟩
       · rw [he]
         simp only [List.take_succ_cons, List.take_zero]
         refine ⟨by omega, by omega, by simp [runeError], ?_, fun _ => trivial⟩
@@ -391,8 +400,9 @@ theorem rewind_eq (o : Opts) (v : Variant) (l : Lexer) (x : Nat) (hx : x ≤ l.s
   cases ht : o.tokenLine <;> by_cases hlt : x < l.offset <;> simp [ht, hlt, hc]
   all_goals (split <;> rfl)
 
-theorem rewind_pinv (o : Opts) (v : Variant) (l : Lexer) (x : Nat) (hx : x ≤ l.source.length)
-    (h : PInv o v l) :
+theorem rewind_pinv_of_line (o : Opts) (v : Variant) (l : Lexer) (x : Nat) (hx : x ≤ l.source.length)
+    (hlo : l.offset ≤ l.source.length)
+    (hline : o.tokenLine = true → l.line = 1 + (countNL (l.source.take l.offset) : Int)) :
     PInv o v (rewind o v l x) ∧ (rewind o v l x).offset = x ∧ (rewind o v l x).source = l.source ∧
     (rewind o v l x).tokenOffset = l.tokenOffset ∧ (rewind o v l x).state = l.state ∧
     (rewind o v l x).tokenLine = l.tokenLine ∧ (rewind o v l x).tokenColumn = l.tokenColumn := by
@@ -423,7 +433,7 @@ theorem rewind_pinv (o : Opts) (v : Variant) (l : Lexer) (x : Nat) (hx : x ≤ l
   · intro ht
     rw [e8, e1, e2]
     simp only [ht, if_true]
-    have hl := h.line ht
+    have hl := hline ht
     by_cases hlt : x < l.offset
     · simp only [hlt, if_true]
       have := countNL_split l.source x l.offset (by omega)
@@ -440,6 +450,31 @@ theorem rewind_pinv (o : Opts) (v : Variant) (l : Lexer) (x : Nat) (hx : x ≤ l
     split
     · trivial
     · simp
+
+theorem rewind_pinv (o : Opts) (v : Variant) (l : Lexer) (x : Nat) (hx : x ≤ l.source.length)
+    (h : PInv o v l) :
+    PInv o v (rewind o v l x) ∧ (rewind o v l x).offset = x ∧ (rewind o v l x).source = l.source ∧
+    (rewind o v l x).tokenOffset = l.tokenOffset ∧ (rewind o v l x).state = l.state ∧
+    (rewind o v l x).tokenLine = l.tokenLine ∧ (rewind o v l x).tokenColumn = l.tokenColumn :=
+  rewind_pinv_of_line o v l x hx h.le h.line
+
+/-- `Init` establishes the invariant at the offset after the byte-order mark. -/
+theorem init_pinv (o : Opts) (v : Variant) (src : List UInt8) :
+    PInv o v (init o v src) ∧ (init o v src).offset = startOffset o src ∧ (init o v src).source = src ∧
+    (init o v src).state = 0 := by
+  have hk : startOffset o src ≤ src.length ∧ countNL (src.take (startOffset o src)) = 0 := by
+    unfold startOffset
+    split
+    · rename_i hb
+      simp only [Bool.and_eq_true, beq_iff_eq] at hb
+      have := congrArg List.length hb.2
+      simp only [List.length_take, bom, List.length_cons, List.length_nil] at this
+      refine ⟨by omega, ?_⟩
+      rw [hb.2]; decide
+    · exact ⟨Nat.zero_le _, by simp [countNL]⟩
+  obtain ⟨r1, r2, r3, _, r5, _, _⟩ := rewind_pinv_of_line o v (initLexer src (startOffset o src)) (startOffset o src)
+    hk.1 hk.1 (by intro _; show (1 : Int) = 1 + (countNL (src.take (startOffset o src)) : Int); rw [hk.2]; rfl)
+  exact ⟨r1, r2, r3, r5⟩
 
 /-- Consuming the current character (not at the end of the input). -/
 theorem consume_pinv (o : Opts) (v : Variant) (l : Lexer) (h : PInv o v l) (hc : 0 ≤ l.ch) :
